@@ -12,7 +12,8 @@
  *   str[:lo..hi,...]                                       string with length parts
  *   t:<module>:<typedef>                                   derived type of an IETF module (laws only, no model)
  *   U(<ty>|<ty>|...)                                       union of the member types (a member may itself be U(...))
- *   lref(<ty>)                                             leafref (require-instance false) to a sibling leaf of type <ty>; alone or as a union member
+ *   lref(<ty>) / lrefr(<ty>)                               leafref to a sibling leaf (require-instance false) / leaf-list (require-instance true) of type
+ *                                                          <ty>; alone or as a union member; op uvalid validates a value against given target instances
  *   pstr:[lo..hi,...]:<lvl>[/<lvl>...]                     string with patterns; a level is `;`-separated [!]<hex-pattern> (`!` =
  *                                                          invert-match); several levels = a typedef chain, one level per typedef,
  *                                                          the length parts sit on the last level
@@ -55,6 +56,7 @@ struct tyent {
     char *preamble;                      /* imports + typedefs the type statement needs */
     int needs_imports;
     char *idmods;                        /* identityref: space-separated module names of the identity set (incl. the leaf module) */
+    int ntg;                             /* leafref: number of target leaves / leaf-lists tg<k> in container c */
 };
 static struct tyent *tys;
 static size_t ntys;
@@ -95,6 +97,7 @@ kind_of_msg(const char *m)
         if (HAS("identity is disabled by if-feature")) return "Disabled";
         return "Other";
     }
+    if (PFX("Invalid leafref value")) return "NoTarget";
     if (PFX("Invalid instance-identifier")) return HAS("\" value - syntax error") ? "Syntax" : (HAS("\" value - semantic error") ? "Semantic" : "Other");
     if (PFX("Internal error")) return "Internal";
     if (PFX("Invalid non-")) return "Hint";
@@ -368,14 +371,15 @@ render_type(const char *d, struct rctx *rc)
     size_t hl = colon ? (size_t)(colon - d) : strlen(d);
     int i;
 
-    if (!strncmp(d, "lref(", 5) && d[strlen(d) - 1] == ')') {
-        /* leafref (require-instance false) to a sibling leaf of the type inside the parentheses */
-        char *inner = strndup(d + 5, strlen(d) - 6), *ty = render_type(inner, rc);
+    if ((!strncmp(d, "lref(", 5) || !strncmp(d, "lrefr(", 6)) && d[strlen(d) - 1] == ')') {
+        /* leafref to a sibling leaf (lref: require-instance false) / leaf-list (lrefr: require-instance true) of the type inside the parentheses */
+        int req = d[4] == 'r';
+        char *inner = strndup(d + 5 + req, strlen(d) - 6 - req), *ty = render_type(inner, rc);
         free(inner);
         if (!ty) return NULL;
-        sb_add(&rc->cbody, &rc->cl, " leaf tg%d { %s }", rc->ntg, ty);
+        sb_add(&rc->cbody, &rc->cl, " %s tg%d { %s }", req ? "leaf-list" : "leaf", rc->ntg, ty);
         free(ty);
-        sb_add(&buf, &len, "type leafref { path \"../tg%d\"; require-instance false; }", rc->ntg++);
+        sb_add(&buf, &len, "type leafref { path \"../tg%d\"; require-instance %s; }", rc->ntg++, req ? "true" : "false");
         return buf;
     }
     if (d[0] == 'U' && d[1] == '(' && d[strlen(d) - 1] == ')') {
@@ -660,6 +664,7 @@ get_type(const char *desc)
             t->preamble = pre;
             t->needs_imports = rc.ietf;
             t->idmods = rc.idmods; rc.idmods = NULL;
+            t->ntg = rc.ntg;
             yt = NULL; pre = NULL;
         }
         free(sch); free(pre);
@@ -905,6 +910,47 @@ main(void)
                 back.realtype->plugin->free(ctx, &back);
             }
             free(s);
+        } else if (!strcmp(op, "uvalid") && r.ntok >= 5) {
+            /* uvalid <ty> <hex value> <hex target>*: the value in leaf-list l, every target value in every leaf-list tg<k> that takes it;
+             * lyd_validate_module (leafref require-instance, union validate callback) -> ok <canon-hex> <member index> | err <Kind> */
+            size_t n; char *s = vp_unhex(r.tok[4], &n); struct lyd_node *c1 = NULL, *node = NULL; int i, k; LY_ERR rc;
+            if (!s) { vp_reply(id, "err BadHex"); continue; }
+            lyd_new_inner(NULL, t->mod, "c", 0, &c1);
+            for (k = 0; k < t->ntg; k++) {
+                char nm[32]; snprintf(nm, sizeof nm, "tg%d", k);
+                for (i = 5; i < r.ntok; i++) {
+                    size_t tn; char *tv = vp_unhex(r.tok[i], &tn);
+                    struct lyd_node *tnode = NULL, *it;
+                    if (tv && !lyd_new_term(c1, NULL, nm, tv, 0, &tnode)) {
+                        /* target instances are distinct values */
+                        LY_LIST_FOR(lyd_child(c1), it) {
+                            if ((it != tnode) && (it->schema == tnode->schema) && !lyd_compare_single(it, tnode, 0)) { lyd_free_tree(tnode); break; }
+                        }
+                    }
+                    free(tv);
+                }
+            }
+            ly_err_clean(ctx, NULL);
+            if (lyd_new_term(c1, NULL, "l", s, 0, &node)) {
+                vp_reply(id, "err Reject");
+            } else if ((rc = lyd_validate_module(&c1, t->mod, 0, NULL))) {
+                const struct ly_err_item *e = ly_err_last(ctx);
+                vp_reply(id, "err %s", kind_of_msg(e ? e->msg : NULL));
+            } else {
+                const struct lyd_value *v = &((struct lyd_node_term *)node)->value;
+                const char *cn = lyd_get_value(node); unsigned member = 99;
+                if (v->realtype->basetype == LY_TYPE_UNION) {
+                    /* the member whose plug-in holds the value now (a leafref member holds it with the type of its target) */
+                    struct lysc_type **types = ((struct lysc_type_union *)v->realtype)->types; LY_ARRAY_COUNT_TYPE u;
+                    LY_ARRAY_FOR(types, u) {
+                        const struct lysc_type *ty = types[u];
+                        if (ty->basetype == LY_TYPE_LEAFREF) ty = ((struct lysc_type_leafref *)ty)->realtype;
+                        if (ty == v->subvalue->value.realtype) { member = (unsigned)u; break; }
+                    }
+                } else member = 0;
+                vp_begin(id, "ok"); vp_field_hex(cn, strlen(cn)); vp_field_u(member); vp_end();
+            }
+            lyd_free_all(c1); free(s);
         } else if (!strcmp(op, "idfmt") && r.ntok == 6) {
             size_t n; char *s = vp_unhex(r.tok[5], &n); const char *fmt = r.tok[4];
             if (!s) { vp_reply(id, "err BadHex"); continue; }
